@@ -641,6 +641,8 @@ def shapes(tier, seed):
                      modules=MODS, canary=True))
     out.append(Shape("canary/multiform/encode", h_mf_encode, dict(n=2, word_sets=[(((0, "X"), (1, "Z")),)], canary=True), modules=MODS, canary=True))
     out.append(Shape("canary/multiform/collapse", h_mf_collapse, dict(n=2, rows=[[2, 1], [0, 3], [2, 1]], canary=True), modules=MODS, canary=True))
+    out.append(Shape("canary/multiform/mul", h_mf_mul, dict(n=2, cases=[((((0, "X"),),), (((0, "Z"), (1, "Y")),))], real=True, canary=True),
+                     modules=MODS, canary=True))
     out.append(Shape("canary/multiform/commute", h_mf_commute, dict(n=2, cases=[((((0, "X"), (1, "X")),), (((0, "Y"), (1, "Y")),))], canary=True),
                      modules=MODS, canary=True))
     return out
